@@ -52,6 +52,8 @@ P = {
                 runs=[dict(cmd="c12", quick=6000, thorough=240000, shards_thorough=4)], vm_k=44),
     "C24": dict(theorems=["Properties/C24.v"],
                 runs=[dict(cmd="c24", quick=300, thorough=20000, shards_thorough=4)], vm_k=40),
+    "C07": dict(theorems=["Properties/C07.v"],
+                runs=[dict(cmd="c07", quick=10, thorough=1500, shards_thorough=8, model=False)]),
     "C09": dict(theorems=["Properties/C09.v"],
                 runs=[dict(cmd="appdb", quick=300, thorough=20000, shards_thorough=4),
                       dict(cmd="c09", quick=16, thorough=600, shards_thorough=8, model=False)]),
@@ -179,6 +181,9 @@ META = {
              "collides with id 1. A repair changes the on-disk id format (docs/proposals/c24_fix_proposal.patch); recorded, not applied.",
         technique="Coq proof (representation invariant over fold of operations; width-generic wrap lemmas; "
                   "vm_compute witness) + differential against the real store + field-by-field monitors"),
+    "C07": dict(text="PARTIAL BY NATURE. Proved: every explicit crash site (panic / log.Panic / log.Fatal / os.Exit, ~200 sites) of the consensus packages, regenerated from the Go source on every run, is covered by the reviewed classification table (a new or moved site breaks the proof gate); the sites carried by the models are unreachable (negative balance at commit, reward 'Negative remainder', swap ErrorK/liquidity, payout and power divisions); the modelled executor and the decoders are total. Exercised, not proved: runtime faults outside explicit sites - scripted crash scenarios from earlier findings, generated histories with malformed transactions, absences, byzantine evidence and block-time walks, byte-level fuzz into DeliverTx and check-mode RunTx; every ABCI call under recover().",
+                note=TB + "Classes of the table: EnvError (storage/encoding errors: trusted environment), Legacy (executors and swap v1 unreachable at V330), NotConsensus, Proved, GuardedByCheck (transaction-level check precedes; validated by the harness only), ByDesign (halt: os.Exit). Nil dereferences, slice bounds, divisions by zero in unmodelled code, OOM and stack depth are outside what a theorem here can exhibit. Found and repaired with this check: f518499, 20acd05, c0a2cc6, 11ddaa1, e60f1c0.",
+                technique="Coq proof (inventory coverage by computation, no-panic theorems of the models) + regenerated crash-site inventory + scenario/history/fuzz execution under recover()"),
     "C09": dict(text="Theorem (appdb layer, complete): for every history of blocks (arbitrary programs over the appdb API) with any restarts, every getter (height, hash, validators, block times, versions, emission, price) returns what a never-restarted node returns; tied to the source by a translator (Commit write order, Save* guards, dirty-flag assignments) and by running random programs against the real AppDB. Node level: generated histories executed straight and with restarts on the real node, comparing responses, app hashes, emission, exports.",
                 note=TB + "PARTIAL: caches of the state modules (order book, candidates, ...) are not modelled; for them only the node-level restart differential speaks.",
                 technique="Coq proof (invariant: caches coherent with disk after Commit) + regenerated code shape + differential (AppDB programs, node restarts)"),
